@@ -7,6 +7,8 @@
 //
 //  C <key> <value...>          echo of the configuration actually used
 //  A <action_id> <order> <label>      action table of the Stepper (in execution order)
+//  B <action_id> <label>              every action registered in the ActionRegistry (explicit and
+//                                     implicit), by the label the action itself reports
 //  Q <name> <action_id>        well-known action ids: boundary tracking-cut discrete range
 //                              integral-rejection failure fixed-step along-neutral along-user
 //                              propagation-limit msc
@@ -54,6 +56,27 @@
 //                                        raw Interaction returned by the harness interactor
 //                                        BEFORE InteractionApplier's cut loop (problem mock with
 //                                        `interactor 1`); kind s|a|u|f
+//     an X line may end with ` | calls N first K`: number of times the harness interactor ran for
+//     this slot in this step and the kind of the FIRST call (a second call in one step = a
+//     second model kernel picked the track up)
+//  M it slot | alg appl | phys onb safety maxstep mfp range | v0 ri0 rf0 lm0 | v1 ri1 rf1 lm1 |
+//              lim true geom limited z | applied displaced dlen asafety true_final
+//                                        recorded oracle around UrbanMsc (problem mock, `msc 1`,
+//                                        along vlinear|vfluct): alg 0 minimal 1 safety 2 safety_plus;
+//                                        appl = is_applicable; phys = step length before
+//                                        limit_step (= pre-step physics limit); onb = on boundary;
+//                                        safety = find_safety(maxstep) (0 on boundary); maxstep =
+//                                        helper.max_step(); mfp = msc_mfp; range = dedx_range;
+//                                        v/ri/rf/lm = MscRange (valid, range_init, range_factor,
+//                                        limit_min) before (0) and after (1) limit_step; lim = 1 if
+//                                        a step-limit class was evaluated (0: early return);
+//                                        true/geom = MscStep paths after limit_step; limited = msc
+//                                        action set; z = standard normal the Gaussian sampler
+//                                        draws at this RNG state (replayed, RNG restored);
+//                                        applied = apply_step ran; displaced = position changed in
+//                                        apply_step; dlen = |displacement|; asafety = safety at the
+//                                        pre-displacement point (find_safety up to 10*dlen+geom
+//                                        limit); true_final = step length after apply_step
 //  K it slot ...                         StepCollector view of the same step (`collector 1`):
 //     K it slot ev trk par nstep pid | E0 x0 y0 z0 u0 v0 w0 t0 vol0 | E1 x1 ... t1 vol1 | step dep act
 //  I it generated queued active alive | num_initializers num_vacancies num_secondaries
@@ -113,6 +136,14 @@ struct SlotRec
     bool has_l = false;
     int l_appl = 0, l_cut = 0, l_has_sample = 0;
     double l_e = 0, l_step = 0, l_low = 0, l_mean = 0, l_sample = 0, l_ret = 0;
+    bool has_m = false;
+    int m_alg = 0, m_appl = 0, m_onb = 0, m_lim = 0, m_limited = 0, m_applied = 0, m_displaced = 0;
+    int m_v0 = 0, m_v1 = 0;
+    double m_phys = 0, m_safety = 0, m_maxstep = 0, m_mfp = 0, m_range = 0, m_ri0 = 0, m_rf0 = 0,
+           m_lm0 = 0, m_ri1 = 0, m_rf1 = 0, m_lm1 = 0, m_true = 0, m_geom = 0, m_z = 0, m_dlen = 0,
+           m_asafety = 0, m_truefinal = 0;
+    int x_calls = 0;
+    char x_first = 'u';
     bool has_x = false;
     char x_kind = 'u';
     double x_e = 0, x_dep = 0;
@@ -251,6 +282,50 @@ inline std::string format_X(long it, long slot, SlotRec const& r)
         put(o, s.pid);
         put(o, s.energy);
     }
+    o += " | calls";
+    put(o, r.x_calls);
+    o += " first ";
+    o += r.x_first;
+    return o;
+}
+
+inline std::string format_M(long it, long slot, SlotRec const& r)
+{
+    std::string o = "M";
+    put(o, it);
+    put(o, slot);
+    o += " |";
+    put(o, r.m_alg);
+    put(o, r.m_appl);
+    o += " |";
+    put(o, r.m_phys);
+    put(o, r.m_onb);
+    put(o, r.m_safety);
+    put(o, r.m_maxstep);
+    put(o, r.m_mfp);
+    put(o, r.m_range);
+    o += " |";
+    put(o, r.m_v0);
+    put(o, r.m_ri0);
+    put(o, r.m_rf0);
+    put(o, r.m_lm0);
+    o += " |";
+    put(o, r.m_v1);
+    put(o, r.m_ri1);
+    put(o, r.m_rf1);
+    put(o, r.m_lm1);
+    o += " |";
+    put(o, r.m_lim);
+    put(o, r.m_true);
+    put(o, r.m_geom);
+    put(o, r.m_limited);
+    put(o, r.m_z);
+    o += " |";
+    put(o, r.m_applied);
+    put(o, r.m_displaced);
+    put(o, r.m_dlen);
+    put(o, r.m_asafety);
+    put(o, r.m_truefinal);
     return o;
 }
 }  // namespace vh
